@@ -53,6 +53,51 @@ func govcCorpus() []govcSet {
 		{"uses-across-modules-in-augment", []string{base,
 			`module t { namespace "urn:t"; prefix t; grouping tg { leaf tl { type string; } container tc { leaf tcl { type string; } } } }`,
 			`module a { namespace "urn:a"; prefix a; import m { prefix m; } import t { prefix t; } augment "/m:d" { uses t:tg; } }`}, false},
+		{"augment-written-before-its-target-exists", []string{base, `module a { namespace "urn:a"; prefix a; import m { prefix m; }
+  augment "/m:c/a:newc/a:nch" { leaf short { type string; } container sc { leaf y { type string; } } }
+  augment "/m:c" { container newc { choice nch { leaf first { type string; } } } }
+  augment "/m:r/m:output/a:oc/a:och" { leaf late { type string; } }
+  augment "/m:r/m:output" { container oc { choice och { case c1 { leaf l1 { type string; } } } } }
+}`}, false},
+		{"single-module-augment-written-before-its-target-exists", []string{`module m { namespace "urn:m"; prefix m;
+  container top;
+  rpc query { output { leaf id { type string; } } }
+  augment "/m:top/m:transport/m:kind" { leaf udp { type empty; } }
+  augment "/m:top" { container transport { choice kind { case tcp { leaf tcp { type empty; } } } } }
+  augment "/m:query/m:output/m:result/m:ok" { choice payload { leaf text { type string; } leaf bin { type binary; } } }
+  augment "/m:query/m:output" { choice result { case ok { leaf code { type uint8; } } case fail { leaf reason { type string; } } } }
+}`}, false},
+		{"every-module-needs-two-rounds", []string{
+			`module x { namespace "urn:x"; prefix x; import y { prefix y; }
+  container root;
+  augment "/x:root/x:x1/y:y1" { container x2 { choice sel { case dflt { leaf dflt { type empty; } } } } }
+  augment "/x:root" { container x1; }
+}`,
+			`module y { namespace "urn:y"; prefix y; import x { prefix x; }
+  augment "/x:root/x:x1/y:y1/x:x2/x:sel" { container from-y; }
+  augment "/x:root/x:x1" { container y1; }
+}`}, false},
+		{"augments-interleaved-across-modules", []string{base,
+			`module a { namespace "urn:a"; prefix a; import m { prefix m; } import b { prefix b; }
+  augment "/m:c" { container ac { leaf al { type string; } } }
+  augment "/m:c/a:ac/b:bc" { choice ach { leaf s1 { type string; } } }
+  augment "/m:c/a:ac/b:bc/a:ach" { leaf s2 { type string; } }
+}`,
+			`module b { namespace "urn:b"; prefix b; import m { prefix m; } import a { prefix a; }
+  augment "/m:c/a:ac" { container bc { leaf bl { type string; } } }
+  augment "/m:c/a:ac/b:bc/a:ach" { leaf s3 { type string; } }
+}`}, false},
+		{"duplicate-augment-into-lazily-created-input", []string{base,
+			`module a { namespace "urn:a"; prefix a; import m { prefix m; } augment "/m:bare/m:input" { leaf lazy { type string; } } }`,
+			`module b { namespace "urn:b"; prefix b; import m { prefix m; } augment "/m:bare/m:input" { leaf lazy { type string; } } }`}, true},
+		{"bad-type-augmented-into-lazily-created-output", []string{base,
+			`module a { namespace "urn:a"; prefix a; import m { prefix m; } augment "/m:bare/m:output" { leaf x { type bogus; } } }`}, true},
+		{"duplicate-augment-into-second-expansion-of-a-grouping", []string{base,
+			`module a { namespace "urn:a"; prefix a; import m { prefix m; } augment "/m:d/m:gc" { leaf deep { type string; } } }`}, true},
+		{"duplicate-augment-into-first-expansion-of-a-grouping", []string{base,
+			`module a { namespace "urn:a"; prefix a; import m { prefix m; } augment "/m:c/m:gc" { leaf deep { type string; } } }`}, true},
+		{"bad-type-augmented-into-grouping-action-input", []string{base,
+			`module a { namespace "urn:a"; prefix a; import m { prefix m; } augment "/m:d/m:act/m:input" { leaf q { type bogus; } } }`}, true},
 		{"deviation", []string{base,
 			`module dv { namespace "urn:dv"; prefix dv; import m { prefix m; } deviation "/m:c/m:gc/m:gll" { deviate add { min-elements 5; } } deviation "/m:d/m:gl" { deviate not-supported; } }`}, false},
 	}
